@@ -13,10 +13,15 @@ PROPS = {}
 PROPS['C13'] = dict(
     families=[
         dict(name='c13-prefix', quick=2500, thorough=60000),
+        dict(name='c13-relativize', quick=30000, thorough=500000),
+        dict(name='c13-curie', quick=8000, thorough=150000),
     ],
-    rule='random histories of Add/Delete/Clone/Compact/Expand/GetPrefixMappings over <=4 managers, 6 prefixes, 9 nested/duplicate namespaces; '
-         'non-trivial = at least two mutating ops and one query; distinct by (ops, outputs)',
-    trusted_base=['model/Prefix.v mirrors iri/prefix_manager.go (slices.SortFunc modelled as a stable sort; observables avoid the order among equal lengths)'],
+    rule='random histories of Add/Delete/Clone/Compact/Expand/GetPrefixMappings over <=4 managers, 6 prefixes, 9 nested/duplicate namespaces '
+         '(non-trivial = at least two mutating ops and one query); (base, IRI) pairs: resolved references, neighbours of the base (directory itself, query/fragment edits, ":" in first segment, "//", dot segments), same-root and unrelated IRIs '
+         '(non-trivial = a spelling was offered); CURIE scopes x IRIs and ParseCURIE strings; distinct by (input, outputs)',
+    refuted=['C13_curie_near_miss_refuted (known finding F27)'],
+    trusted_base=['model/Prefix.v mirrors iri/prefix_manager.go (slices.SortFunc modelled as a stable sort; observables avoid the order among equal lengths)',
+                  'model/Relativize.v mirrors iri/base_iri.go with model/Iri3986.v as the expander; model/Curie.v mirrors iri/curie'],
     assumptions=['Go map/slice semantics as read in the model'],
     explanation='theorems over all histories of the prefix table model; model tied to iri.PrefixManager by running both on the same histories',
 )
